@@ -393,9 +393,13 @@ func checkMain(args []string) int {
 	// ---- native replay ----------------------------------------------------------------------
 	replayed := map[int]*replayResult{}
 	replayErr := map[string]string{}
+	raceIDs := map[int]bool{}
 	if !*noReplay && (len(cands) > 0 || len(traces) > 0) {
 		byPkg := map[string][]replayCase{}
 		for _, c := range cands {
+			if c.v.Kind == "race" {
+				raceIDs[c.id] = true
+			}
 			byPkg[c.spec.Pkg] = append(byPkg[c.spec.Pkg], replayCase{c.id, c.v.Harness, withTier(c.v.Model, *tier)})
 		}
 		for _, t := range traces {
@@ -415,14 +419,27 @@ func checkMain(args []string) int {
 						fns = append(fns, s.Fn)
 					}
 				}
-				rr, err := nativeReplay(*repo, scratch, pkg, pkgName(pkg), intrFile[pkg], pkgFiles[pkg], fns, pkgSetups[pkg], cases)
-				mu.Lock()
-				defer mu.Unlock()
-				if err != nil {
-					replayErr[pkg] = err.Error()
+				var plain, racy []replayCase
+				for _, c := range cases {
+					if raceIDs[c.ID] {
+						racy = append(racy, c)
+					} else {
+						plain = append(plain, c)
+					}
 				}
-				for id, r := range rr {
-					replayed[id] = r
+				for pass, set := range [][]replayCase{plain, racy} {
+					if len(set) == 0 {
+						continue
+					}
+					rr, err := nativeReplay(*repo, scratch, pkg, pkgName(pkg), intrFile[pkg], pkgFiles[pkg], fns, pkgSetups[pkg], set, pass == 1)
+					mu.Lock()
+					if err != nil {
+						replayErr[pkg] = err.Error()
+					}
+					for id, r := range rr {
+						replayed[id] = r
+					}
+					mu.Unlock()
 				}
 			}(pkg, cases)
 		}
@@ -513,6 +530,9 @@ func checkMain(args []string) int {
 		for k := range t.t.Model {
 			if strings.HasPrefix(k, "select") || strings.HasPrefix(k, "maporder") {
 				uncontrolled = true // Go chooses among ready select cases / map orders at random
+			}
+			if _, enforced := t.t.Model["__ops"]; strings.HasPrefix(k, "sched") && !enforced {
+				uncontrolled = true // goroutine schedules are only enforced for file-system processes
 			}
 		}
 		if uncontrolled {
@@ -622,10 +642,13 @@ func parseCommon(path string) (commonSpec, error) {
 	return cs, nil
 }
 
-func nativeReplay(repo, scratch, pkg, pkgName, intr string, harnessFiles, fns, setups []string, cases []replayCase) (map[int]*replayResult, error) {
+func nativeReplay(repo, scratch, pkg, pkgName, intr string, harnessFiles, fns, setups []string, cases []replayCase, race bool) (map[int]*replayResult, error) {
 	tag := strings.ReplaceAll(pkg, "/", "_")
+	if race {
+		tag += "_race"
+	}
 	var b strings.Builder
-	fmt.Fprintf(&b, "package %s\n\nimport (\n\t\"encoding/json\"\n\t\"fmt\"\n\t\"os\"\n\t\"strings\"\n\t\"testing\"\n)\n\n", pkgName)
+	fmt.Fprintf(&b, "package %s\n\nimport (\n\t\"encoding/json\"\n\t\"fmt\"\n\t\"os\"\n\t\"strconv\"\n\t\"strings\"\n\t\"testing\"\n)\n\n", pkgName)
 	b.WriteString("var verifHarnesses = map[string]func(){\n")
 	for _, f := range fns {
 		fmt.Fprintf(&b, "\t%q: %s,\n", f, f)
@@ -660,6 +683,9 @@ func nativeReplay(repo, scratch, pkg, pkgName, intr string, harnessFiles, fns, s
 		// counterexamples that depend on map iteration order or goroutine scheduling cannot be
 		// forced natively: repeat until the failure shows (the Go runtime randomises both)
 		tries := 1
+		if n, err := strconv.Atoi(os.Getenv("VERIF_REPLAY_TRIES")); err == nil && n > 1 {
+			tries = n
+		}
 		for k := range c.Model {
 			if strings.HasPrefix(k, "maporder") || strings.HasPrefix(k, "sched") || strings.HasPrefix(k, "select") {
 				tries = 60
@@ -721,7 +747,12 @@ func nativeReplay(repo, scratch, pkg, pkgName, intr string, harnessFiles, fns, s
 	res := map[int]*replayResult{}
 	// Build once, then run; if the process dies on one case, rerun the remaining cases one by one.
 	bin := filepath.Join(scratch, "replay_"+tag+".test")
-	build := exec.Command("go", "test", "-c", "-vet=off", "-overlay", ovFile, "-o", bin, "./"+pkg)
+	bargs := []string{"test", "-c", "-vet=off", "-overlay", ovFile, "-o", bin}
+	if race {
+		bargs = append(bargs, "-race")
+	}
+	bargs = append(bargs, "./"+pkg)
+	build := exec.Command("go", bargs...)
 	build.Dir = repo
 	build.Env = append(os.Environ(), "GOFLAGS=-mod=mod", "GOPROXY=off", "GOSUMDB=off", "GOTOOLCHAIN=local")
 	if out, err := build.CombinedOutput(); err != nil {
@@ -730,12 +761,19 @@ func nativeReplay(repo, scratch, pkg, pkgName, intr string, harnessFiles, fns, s
 	run := func(only string) string {
 		cmd := exec.Command(bin, "-test.run", "^TestVerifReplay$", "-test.timeout", "10m")
 		cmd.Dir = filepath.Join(repo, pkg)
-		cmd.Env = append(os.Environ(), "VERIF_REPLAY_FILE="+cf, "VERIF_REPLAY_ONLY="+only)
+		cmd.Env = append(os.Environ(), "VERIF_REPLAY_FILE="+cf, "VERIF_REPLAY_ONLY="+only, "GORACE=halt_on_error=0")
+		if race {
+			cmd.Env = append(cmd.Env, "VERIF_REPLAY_TRIES=400")
+		}
 		out, _ := cmd.CombinedOutput()
 		return string(out)
 	}
 	parse := func(out string) {
+		cur := -1
 		for _, line := range strings.Split(out, "\n") {
+			if strings.Contains(line, "WARNING: DATA RACE") && cur >= 0 && res[cur] != nil {
+				res[cur].panicMsg = "DATA RACE reported by the Go race detector"
+			}
 			f := strings.SplitN(strings.TrimSpace(line), " ", 3)
 			if len(f) < 2 || !strings.HasPrefix(f[0], "REPLAY-") {
 				continue
@@ -756,6 +794,7 @@ func nativeReplay(repo, scratch, pkg, pkgName, intr string, harnessFiles, fns, s
 			switch f[0] {
 			case "REPLAY-BEGIN":
 				r.began = true
+				cur = id
 			case "REPLAY-END":
 				r.ended = true
 			case "REPLAY-ASSUME-FAILED":
